@@ -157,10 +157,16 @@ def gen_msd_text(rng, fmt=None):
             size += len(line)
         bom = text[:1] if text[:1] == "\ufeff" else ""
         text = bom + "".join(pre) + text[len(bom):]
-    if rng.random() < 0.03:
+    if rng.random() < 0.05:
         # straddle the 4096-character chunk msdparser reads / the 8192-byte chunk TextIOWrapper reads
         pad = "#PAD:" + "p" * rng.choice([4080, 4090, 4096, 8180, 8192]) + ";" + nl
-        text = pad + text if rng.random() < 0.5 else text + pad
+        if rng.random() < 0.6:
+            # a run of multi-byte characters across the 4096 / 8192 byte (and character) offsets:
+            # the boundary falls inside a character for most phases
+            blk = rng.choice([4096, 8192, 8192])
+            mb = rng.choice(["\u3042", "\u00e9", "\U0001d11e", "\ud55c"])
+            pad = "#PAD:" + "p" * (blk - 5 - rng.randint(0, 12)) + mb * 12 + ";" + nl
+        text = pad + text if rng.random() < 0.7 else text + pad
     text = _leading_bom_only(_no_trailing_backslash(text))
     return text
 
@@ -222,6 +228,7 @@ def generate(prop, rng, run, tier):
            "buffering": rng.choice([None, None, 2, 9, 64, 8192])}
     if prop == "C03":
         cfg["real"] = rng.random() < 0.05
+        cfg["newline"] = gen.wchoice(rng, [("default", 6), ("none", 2), ("empty", 2)])
         r = rng.random()
         if r < 0.04:
             rel = rng.choice(CORPUS["sm"] + CORPUS["ssc"])
@@ -508,6 +515,25 @@ def check_c03(sc, res):
                        lambda: sfm.load(iter(_lines(text)), strict=strict), lib)
     ok = ok and _judge(res, "load-generator", text, None, strict,
                        lambda: sfm.load((l for l in _lines(text)), strict=strict), lib)
+    # iterators whose items are not whole lines: empty strings in between, arbitrary chunks
+    import random as _r
+    irng = _r.Random(len(text) * 7919 + (sr or 0))
+    with_empty = []
+    for l in _lines(text):
+        if irng.random() < 0.3:
+            with_empty.append("")
+        with_empty.append(l)
+    with_empty = ([""] if irng.random() < 0.5 else []) + with_empty + [""]
+    ok = ok and _judge(res, "load-iterator-empty-items", text, None, strict,
+                       lambda: sfm.load(iter(with_empty), strict=strict), lib)
+    chunks = []
+    i = 0
+    while i < len(text):
+        n = irng.choice([1, 2, 3, 5, 8, 13, 40, 200])
+        chunks.append(text[i:i + n])
+        i += n
+    ok = ok and _judge(res, "load-iterator-chunks", text, None, strict,
+                       lambda: sfm.load(iter(chunks), strict=strict), lib)
     # 2. typing.TextIO stream objects whatever their name
     for nk, nm in [("str", n) for n in sc.get("names", [])] + [("bytes", "x.ssc"), ("int", ""),
                                                                 ("absent", "")]:
@@ -537,6 +563,15 @@ def check_c03(sc, res):
                 kw = {}
                 if _sane_buffering(cfg.get("buffering")) is not None:
                     kw["buffering"] = cfg["buffering"]
+                # keyword arguments are passed to open(): the caller's newline mode decides
+                # whether line breaks are translated (None = universal newlines, "" = as stored)
+                nlmode = cfg.get("newline", "default")
+                if nlmode == "none":
+                    kw["newline"] = None
+                    translate = True
+                elif nlmode == "empty":
+                    kw["newline"] = ""
+                    translate = False
 
                 def via_file():
                     disk = make_disk(world, {"short_reads": sr}, None, facade)
